@@ -131,9 +131,10 @@ def _case(draw):
                 other = list(reversed(other))
             elif how == "near":
                 # same inner expression up to a relative 2^-13 on the variable coefficients: prints alike at 4 digits, differs in value
+                rel_ = 2.0 ** -draw(st.sampled_from([13, 13, 22]))      # visible at 4 digits or only from the 7th digit on
                 for i in other:
                     if i["k"] == "var":
-                        i["c"] = {"val": (1 + 2.0 ** -13) * (i["c"]["val"] if i.get("c") else 1.0)}
+                        i["c"] = {"val": (1 + rel_) * (i["c"]["val"] if i.get("c") else 1.0)}
             else:
                 for i in other:
                     if i["k"] == "var":
